@@ -1,7 +1,11 @@
+(* C09 -- property theorems only; each is closed by a lemma of Lemmas.v / Refuted.v.
+   State = heap of class level Parameter and datatype objects + class table + instances; ops = class definition,
+   instantiation with configuration, setProperty on one instance, enum growth on one instance. *)
 From Coq Require Import List Arith ZArith Bool Lia.
 Import ListNotations.
-Require Import FV.Gen.C09 FV.C09.Model FV.C09.Lemmas.
+Require Import FV.Gen.C09 FV.C09.Model FV.C09.Lemmas FV.C09.Refuted.
 
+(* obligations on the facts regenerated from /repo (Gen/C09.v): the statements the model transliterates are there *)
 Theorem C09_source_facts :
   walk_is_reversed_mro = true /\ second_loop_merges_in_place = true /\ wrapped_classes_skip = true /\
   param_update_properties = true /\ param_merge = true /\ param_clone = true /\ param_create_from_value = true /\
@@ -10,4 +14,103 @@ Theorem C09_source_facts :
   module_init_copies = true /\ add_accessible_configures_copy = true /\ datatype_copy_rebuilds = true /\
   register_input_replaces_datatype = true.
 Proof. repeat split; reflexivity. Qed.
+
+(* (1) FULL STRENGTH.  An instance is changed only by the ops addressed to it: whatever else happens -- class
+   definitions (any hierarchy), creation of other instances with any configuration (accepted or rejected), property
+   changes and enum growth on other instances -- in any order and number, it stays exactly as it is *)
+Theorem C09_instances_isolated : forall ops s j,
+  j < length (insts s) -> forallb (fun o => negb (addresses o j)) ops = true ->
+  nth j (insts (fold_left step ops s)) dead = nth j (insts s) dead.
+Proof. intros; apply other_instances_unchanged_hist; assumption. Qed.
+
+(* (2) FULL STRENGTH.  Creating, configuring and mutating instances never changes the description of any class *)
+Theorem C09_classes_unaffected_by_instances : forall ops s c,
+  forallb inst_op ops = true -> describe_class (fold_left step ops s) c = describe_class s c.
+Proof. intros; apply class_unchanged_by_instance_ops; assumption. Qed.
+
+(* (3) FULL STRENGTH.  An instance created later is the same whatever was created, configured or mutated before *)
+Theorem C09_later_instances_unaffected : forall ops s ci c,
+  forallb inst_op ops = true -> new_inst (fold_left step ops s) ci c = new_inst s ci c.
+Proof. intros; apply later_instance_unaffected; assumption. Qed.
+
+(* (4) FULL STRENGTH.  A new instance is a function (inst_spec, no heap, no other instance) of the description of its
+   own class and of its own configuration *)
+Theorem C09_instance_function_of_class_and_config : forall s ci c,
+  ci < length (classes s) ->
+  new_inst s ci c = inst_spec (c_module (nth ci (classes s) cls0)) (describe_full s (nth ci (classes s) cls0)) c.
+Proof. intros; apply new_inst_is_spec; assumption. Qed.
+
+(* (5) Exact footprint of a class definition: of the objects that exist already it writes only the Parameter objects it
+   merges in place and the datatype objects it sets inherited datatype properties on (footprint s d, computed by the
+   model); it never removes or changes an existing class record or an instance *)
+Theorem C09_define_footprint : forall s d,
+  (forall i, i < length (params s) -> ~ In i (fst (footprint s d)) -> getp (params (define s d)) i = getp (params s) i) /\
+  (forall j, j < length (dts s) -> ~ In j (snd (footprint s d)) -> getd (dts (define s d)) j = getd (dts s) j) /\
+  (exists c, classes (define s d) = classes s ++ [c]) /\ insts (define s d) = insts s.
+Proof.
+  intros. destruct (define_frame s d) as (A & B & _). repeat split; auto.
+  eexists. reflexivity.
+Qed.
+
+(* (6) The full statement would be: forall s d c, In c (classes s) -> describe_class (define s d) c = describe_class s c.
+   It is false in the model and in the pinned code (C09_refuted_inplace_merge, C09_refuted_own_datatype).  Proved with the
+   exact exclusion: every accessible object of c is either outside the footprint of the definition or re-merged to the
+   same content *)
+Theorem C09_define_frame_except_inplace_writes : forall s d c,
+  (forall k i, In (k, i) (c_acc c) ->
+     acc_ok s i /\ (untouched s d i \/ read (params (define s d)) (dts (define s d)) i = read (params s) (dts s) i)) ->
+  describe_class (define s d) c = describe_class s c.
+Proof. intros; apply class_unchanged_by_define; assumption. Qed.
+
+(* (7) in particular a definition that writes to no existing object changes no existing description *)
+Theorem C09_define_frame_self_contained : forall s d c,
+  (forall i, In i (fst (footprint s d)) -> length (params s) <= i) ->
+  (forall j, In j (snd (footprint s d)) -> length (dts s) <= j) ->
+  (forall k i, In (k, i) (c_acc c) -> acc_ok s i) ->
+  describe_class (define s d) c = describe_class s c.
+Proof.
+  intros s d c Hp Hd Hok. apply class_unchanged_by_define. intros k i Hin.
+  destruct (Hok k i Hin) as [Hi Hj]. split; [split; assumption|]. left. split.
+  - intro H. apply Hp in H. lia.
+  - intros j E H. apply Hd in H. specialize (Hj j E). lia.
+Qed.
+
+(* the violations *)
+Theorem C09_refuted_mixin_alias :
+  exists ops d i, let s := run ops in
+    i < length (classes s) /\
+    describe_class (define s d) (nth i (classes s) cls0) <> describe_class s (nth i (classes s) cls0).
+Proof. exact C09_refuted_inplace_merge. Qed.
+
+Theorem C09_refuted_value_override_leak :
+  exists ops d i, let s := run ops in
+    i < length (classes s) /\
+    describe_class (define s d) (nth i (classes s) cls0) <> describe_class s (nth i (classes s) cls0).
+Proof. exact C09_refuted_own_datatype. Qed.
+
+(* non-vacuity: an overriding subclass with an own Parameter object writes to nothing that exists;
+   `class D(A): pass` re-merges A.p in place (footprint [0]) to the same content *)
+Example C09_demo_self_contained :
+  let s := run [cA] in
+  let d := body_of (modcls [1; 0] [(1, par None None None (Some 5%Z) None)]) in
+  forallb (fun i => Nat.leb (length (params s)) i) (fst (footprint s d)) = true /\ snd (footprint s d) = [] /\
+  map snd (describe_class (define s d) (last (classes (define s d)) cls0)) =
+    [{| a_desc := Some 1%Z; a_group := None; a_value := Some 1%Z; a_dt := mkdt 1 (Some 0%Z) (Some 5%Z) 0 [] |}].
+Proof. vm_compute. repeat split. Qed.
+
+Example C09_demo_remerge_same_content :
+  let s := run [cA] in
+  let d := body_of (modcls [1; 0] []) in
+  footprint s d = ([0], []) /\ read (params (define s d)) (dts (define s d)) 0 = read (params s) (dts s) 0.
+Proof. vm_compute. repeat split. Qed.
+
 Print Assumptions C09_source_facts.
+Print Assumptions C09_instances_isolated.
+Print Assumptions C09_classes_unaffected_by_instances.
+Print Assumptions C09_later_instances_unaffected.
+Print Assumptions C09_instance_function_of_class_and_config.
+Print Assumptions C09_define_footprint.
+Print Assumptions C09_define_frame_except_inplace_writes.
+Print Assumptions C09_define_frame_self_contained.
+Print Assumptions C09_refuted_mixin_alias.
+Print Assumptions C09_refuted_value_override_leak.
